@@ -106,6 +106,10 @@ def _hoist_one(top):
                             return (n, key, i, r) if not isinstance(r, tuple) else r
                     elif isinstance(x, dict) and "body" in x and "pat" in x:      # match arm record
                         pass
+                    elif isinstance(x, dict) and "k" not in x and isinstance(x.get("e"), dict):      # struct field record {name, e}
+                        r = find(x["e"], False)
+                        if r is not None:
+                            return (x, "e", None, r) if not isinstance(r, tuple) else r
         return None
     r = find(top, True)
     if r is None:
